@@ -1,9 +1,14 @@
 ----------------------------- MODULE LUContract -----------------------------
 (***************************************************************************)
 (* Level A (contract) for property C16, on the exact small-integer domain. *)
-(* Nothing here mentions elimination, pivots or permutations: singularity  *)
-(* is det(A) = 0 (Leibniz formula) and the solution is Cramer's rule, both *)
-(* over exact rationals / Gaussian rationals.                              *)
+(* Singularity is det(A) = 0 (Leibniz / Laplace formula) and the solution  *)
+(* is Cramer's rule, both over exact rationals / Gaussian rationals; only  *)
+(* the pivot_max clause speaks about elimination (it has to: it is about   *)
+(* the pivoting strategy).                                                 *)
+(* A scenario may be graded: the matrix handed to the code is D_r A D_c,   *)
+(* the right-hand side D_r b (powers of two, see LU.tla); det and Cramer   *)
+(* are taken on A and b: D_r A D_c is singular iff A is, and the solution  *)
+(* is D_c^-1 A^-1 b.                                                       *)
 (*                                                                         *)
 (* Clauses (obs* = what an implementation returned):                       *)
 (*   class        Singular iff A is exactly singular -- required when      *)
@@ -15,7 +20,14 @@
 (*   solution     Ok and det # 0 => x = A^-1 b: exactly when all           *)
 (*                intermediates are dyadic, else within the tolerance the  *)
 (*                harness applies to the rational carried by the scenario. *)
-(*   multipliers  all stored multipliers have magnitude <= 1.              *)
+(*   multipliers  all stored multipliers are bounded: magnitude <= 1 (real);*)
+(*                modulus <= sqrt 2 (complex: the pivot is the entry of    *)
+(*                largest |re|+|im|, and |z| <= |z|_1 <= sqrt 2 |z|).      *)
+(*   pivot_max    the row exchanges are partial pivoting: at every stage   *)
+(*                the row the implementation reports as pivot row holds an *)
+(*                entry of maximal magnitude (|.| real, |re|+|im| complex) *)
+(*                in its column of the exactly eliminated matrix, given    *)
+(*                the rows it reported before (any maximal row is allowed).*)
 (*   shape        wrong shapes / pivot length => the corresponding error.  *)
 (*   only_b       a solve modifies only b.                                 *)
 (***************************************************************************)
@@ -28,6 +40,13 @@ Det(a, n, Mul(_, _), Add(_, _), Sub(_, _)) ==
     [] n = 3 -> Add(Sub(Mul(a[1][1], Sub(Mul(a[2][2], a[3][3]), Mul(a[2][3], a[3][2]))),
                         Mul(a[1][2], Sub(Mul(a[2][1], a[3][3]), Mul(a[2][3], a[3][1])))),
                     Mul(a[1][3], Sub(Mul(a[2][1], a[3][2]), Mul(a[2][2], a[3][1]))))
+    [] n = 4 -> \* Laplace expansion along the first row; Minor(c) = rows 2..4 without column c
+                LET Minor(c) == [i \in 1..3 |-> [j \in 1..3 |-> a[i + 1][IF j < c THEN j ELSE j + 1]]]
+                    D3(m) == Add(Sub(Mul(m[1][1], Sub(Mul(m[2][2], m[3][3]), Mul(m[2][3], m[3][2]))),
+                                     Mul(m[1][2], Sub(Mul(m[2][1], m[3][3]), Mul(m[2][3], m[3][1])))),
+                                 Mul(m[1][3], Sub(Mul(m[2][1], m[3][2]), Mul(m[2][2], m[3][1]))))
+                IN Sub(Add(Sub(Mul(a[1][1], D3(Minor(1))), Mul(a[1][2], D3(Minor(2)))), Mul(a[1][3], D3(Minor(3)))),
+                       Mul(a[1][4], D3(Minor(4))))
 
 ReplaceCol(a, n, c, b) == [i \in 1..n |-> [j \in 1..n |-> IF j = c THEN b[i] ELSE a[i][j]]]
 
@@ -54,6 +73,40 @@ ComplexSolution(AR, AI, n, b) ==
       d == CDet(a, n)
   IN [c \in 1..n |-> CDivExact(CDet(ReplaceCol(a, n, c, cb), n), d)]
 
+(* ---- partial pivoting, on the pivot rows an implementation reported ---- *)
+\* Exact elimination of A (row exponents rs) following ipObs.  Result: -1 when every reported pivot row holds a
+\* maximal entry of its column, else the first stage (0-based) where it does not (or where the reported row is not a
+\* row k..n-1).  A slot never written (UNSET) ends the run: that is fine unless the implementation said Ok.
+\* A zero pivot in a maximal row means the whole column is zero: the elimination ends there.
+RECURSIVE GuidedPiv(_, _, _, _, _, _, _, _)
+GuidedPiv(isReal, a, re, lex, n, k, ipObs, obsCls) ==
+  IF k >= n - 1 \/ Len(ipObs) < n THEN -1
+  ELSE LET m == ipObs[k + 1]
+           Mag(i) == IF isReal THEN RAbs(Get(a, i, k)) ELSE CAbs1(Get(a, i, k))
+       IN IF m = UNSET THEN (IF obsCls = "ok" THEN k ELSE -1)
+          ELSE IF m < k \/ m > n - 1 THEN k
+          ELSE IF \E i \in k..n - 1 : ScLt(Mag(m), re[m + 1], Mag(i), re[i + 1]) THEN k
+          ELSE LET s == IF isReal THEN DecStageAt(a, re, lex, n, k, m) ELSE CDecStageAt(a, re, lex, n, k, m)
+               IN IF s.sing THEN -1 ELSE GuidedPiv(isReal, s.a, s.re, s.lex, n, k + 1, ipObs, obsCls)
+
+RealBadPivotStage(A, n, rs, ipObs, obsCls) == GuidedPiv(TRUE, RatMat(A), rs, ZeroMat(n), n, 0, ipObs, obsCls)
+ComplexBadPivotStage(AR, AI, n, rs, ipObs, obsCls) == GuidedPiv(FALSE, CMat(AR, AI), rs, ZeroMat(n), n, 0, ipObs, obsCls)
+
+(* ---- floats as exact values: odd mantissa and binary exponent ----------- *)
+\* The harness logs every float v as <<m, e>> with v = m * 2^e, m odd (<<0, 0>> for 0; <<0, 1>> when |m| >= 2^30 or
+\* v is not finite).  ME(x, e) is that form of the dyadic rational x times 2^e (<<0, 2>> when x is not dyadic).
+RECURSIVE Log2(_)
+Log2(d) == IF d = 1 THEN 0 ELSE 1 + Log2(d \div 2)
+RECURSIVE StripTwos(_, _)
+StripTwos(m, s) == IF m % 2 = 0 THEN StripTwos(m \div 2, s + 1) ELSE <<m, s>>
+ME(x, e) == IF x[1] = 0 THEN <<0, 0>>
+            ELSE IF ~IsPow2(x[2]) THEN <<0, 2>>
+            ELSE LET o == StripTwos(x[1], 0) IN <<o[1], e + o[2] - Log2(x[2])>>
+CME(z, e) == <<ME(z[1], e), ME(z[2], e)>>
+\* the rational x times 2^e as the triple the scenario carries to the harness
+R3(x, e) == <<x[1], x[2], e>>
+C3(z, e) == <<R3(z[1], e), R3(z[2], e)>>
+
 (* ---- clauses ------------------------------------------------------------ *)
 \* obsCls: "ok" | "singular" | anything else (error / panic)
 C16_Class(singular, allDyadic, obsCls) ==
@@ -68,6 +121,9 @@ C16_Solution(singular, allDyadic, want, obsPanic, obsExact, obsClose, xeUsed) ==
                /\ IF allDyadic THEN obsExact = want ELSE (obsClose /\ xeUsed = want))
 
 C16_Multipliers(obsCls, obsMultOk) == obsCls = "ok" => obsMultOk
+
+\* badStage: result of Real/ComplexBadPivotStage on the reported pivot rows
+C16_PivotMax(badStage) == badStage = -1
 
 C16_Shape(want, obsCls) == want # "proceed" => obsCls = want
 
